@@ -191,6 +191,8 @@ def hashed {K V : Type} [DecidableEq K] [DecidableEq V] (h : K → Nat) (kc : Co
       | "clone", [t] => match slotOf t with
         | some j => let c := HashMap.dup h dflt a; (sl.set! j c, s!"ok {c.n}")
         | none => bad
+      -- `a.dup()` in place: this object detaches from the table it may share and gets its own copy
+      | "dup", [] => let c := HashMap.dup h dflt a; (sl.set! i c, s!"ok {c.n}")
       | "eq", [t] => match slotOf t with
         | some j => (sl, b01 (HashMap.eq h a (sl.getD j (HashMap.empty Gen.HashMap.defaultBuckets))))
         | none => bad
@@ -235,6 +237,7 @@ def sets {K : Type} [DecidableEq K] (h : K → Nat) (kc : Codec K)
       | "clone", [t] => match slotOf t with
         | some j => let c := HashMap.dup h 0 a; (sl.set! j c, s!"ok {c.n}")
         | none => bad
+      | "dup", [] => let c := HashMap.dup h 0 a; (sl.set! i c, s!"ok {c.n}")
       | "from" , ks => match ks.mapM kc.parse with
         | some xs => let a' := HashMap.sFromList h xs; (sl.set! i a', s!"ok {a'.n}")
         | none => bad
@@ -269,35 +272,30 @@ def sets {K : Type} [DecidableEq K] (h : K → Nat) (kc : Codec K)
       | _, _ => bad
   | _ => bad
 
-/-- One family of hash containers with HANDLE semantics: `slots[i]` names the table the i-th C++ object refers
-to; `HashMap(const HashMap&)` / `operator=` (op `share`) make two slots name the same table; operations that
-assign a new object to a slot (`new`, `clone`, `from`, `union`, `inter`, `diff`) bind it to a fresh table.  The
-reference count a table's operations see is the number of slots naming it. -/
-structure Fam (K V : Type) where
-  tabs : Array (HashMap.HM K V)
-  slots : Array Nat
+/-- handle-level state of one family of hash containers: `AslModel.HashMap.Fam` (slots naming tables) -/
+abbrev Fam (K V : Type) := HashMap.Fam K V
 
-def Fam.init {K V : Type} : Fam K V :=
-  { tabs := Array.replicate NS (HashMap.empty Gen.HashMap.defaultBuckets), slots := Array.range NS }
+def famInit {K V : Type} : Fam K V :=
+  { tabs := List.replicate NS (HashMap.empty Gen.HashMap.defaultBuckets), slots := List.range NS }
 
-def Fam.view {K V : Type} (f : Fam K V) : Array (HashMap.HM K V) :=
-  f.slots.map fun t =>
-    let m := f.tabs.getD t (HashMap.empty Gen.HashMap.defaultBuckets)
-    { m with rc := (f.slots.filter (· == t)).size }
+def famView {K V : Type} (f : Fam K V) : Array (HashMap.HM K V) :=
+  ((List.range NS).map fun j => f.get j).toArray
 
-def rebinding (op : String) : Bool := op ∈ ["new", "clone", "from", "union", "inter", "diff"]
+def rebinding (op : String) : Bool := op ∈ ["new", "clone", "dup", "from", "union", "inter", "diff"]
 
-/-- run an op of the value-level interpreter `run` on the handle-level state -/
-def Fam.step {K V : Type} (run : Array (HashMap.HM K V) → List String → Array (HashMap.HM K V) × String)
+/-- run an op of the value-level interpreter `run` on the handle-level state: the interpreter sees every object
+through `Fam.get`; its result for the written object goes back through `Fam.store` (member called on the object)
+or `Fam.rebind` (object assigned a newly built map); `share` is `Fam.share` -/
+def famStep {K V : Type} (run : Array (HashMap.HM K V) → List String → Array (HashMap.HM K V) × String)
     (f : Fam K V) (ts : List String) : Fam K V × String :=
   match ts with
   | ["share", s, t] => match slotOf s, slotOf t with
     | some i, some j =>
-      let f' := { f with slots := f.slots.set! j (f.slots.getD i 0) }
-      (f', s!"ok {((f'.view).getD j (HashMap.empty 1)).n}")
+      let f' := f.share i j
+      (f', s!"ok {(f'.get j).n}")
     | _, _ => (f, "bad-op")
   | op :: args =>
-    let v := f.view
+    let v := famView f
     let (v', out) := run v ts
     -- the slot the op writes: second slot argument for `clone`, first otherwise
     let tgt := match op, args with
@@ -309,9 +307,8 @@ def Fam.step {K V : Type} (run : Array (HashMap.HM K V) → List String → Arra
     | some j =>
       let m := v'.getD j (HashMap.empty Gen.HashMap.defaultBuckets)
       if out == "bad-op" then (f, out)
-      else if rebinding op then
-        ({ tabs := f.tabs.push { m with rc := 1 }, slots := f.slots.set! j f.tabs.size }, out)
-      else ({ f with tabs := f.tabs.set! (f.slots.getD j 0) m }, out)
+      else if rebinding op then (f.rebind j m, out)
+      else (f.store j m, out)
   | _ => (f, "bad-op")
 
 structure St where
@@ -324,16 +321,16 @@ structure St where
 
 def init : St :=
   { mi := Array.replicate NS [], ds := Array.replicate NS [],
-    hi := Fam.init, hs := Fam.init, si := Fam.init, ss := Fam.init }
+    hi := famInit, hs := famInit, si := famInit, ss := famInit }
 
 def step (st : St) (ts : List String) : St × String :=
   match ts with
   | "mi" :: r => let (x, o) := ordered Map.cmpInt intCodec intCodec 0 st.mi r; ({ st with mi := x }, o)
   | "ds" :: r => let (x, o) := ordered Map.cmpBytes bytesCodec bytesCodec [] st.ds r; ({ st with ds := x }, o)
-  | "hi" :: r => let (x, o) := st.hi.step (hashed HashMap.hashInt intCodec intCodec 0) r; ({ st with hi := x }, o)
-  | "hs" :: r => let (x, o) := st.hs.step (hashed HashMap.hashBytes bytesCodec intCodec 0) r; ({ st with hs := x }, o)
-  | "si" :: r => let (x, o) := st.si.step (sets HashMap.hashInt intCodec) r; ({ st with si := x }, o)
-  | "ss" :: r => let (x, o) := st.ss.step (sets HashMap.hashBytes bytesCodec) r; ({ st with ss := x }, o)
+  | "hi" :: r => let (x, o) := famStep (hashed HashMap.hashInt intCodec intCodec 0) st.hi r; ({ st with hi := x }, o)
+  | "hs" :: r => let (x, o) := famStep (hashed HashMap.hashBytes bytesCodec intCodec 0) st.hs r; ({ st with hs := x }, o)
+  | "si" :: r => let (x, o) := famStep (sets HashMap.hashInt intCodec) st.si r; ({ st with si := x }, o)
+  | "ss" :: r => let (x, o) := famStep (sets HashMap.hashBytes bytesCodec) st.ss r; ({ st with ss := x }, o)
   | _ => (st, "bad-op")
 
 end Driver.C02
